@@ -185,6 +185,23 @@ func c10Record(tier string, seed int64, emit func(interface{})) {
 		emit(map[string]interface{}{"k": "cut", "g": g, "enzyme": e, "s": strings.ToUpper(s), "circ": circ, "frags": out})
 	}
 	names := []string{"BsaI", "BbsI", "BtgZI"}
+	// every built-in enzyme by name on a small carrier plasmid with one forward and one backward site around an
+	// insert, stored at EVERY rotation: the site straddles the origin by 1, 2, ... letters in turn
+	for _, name := range names {
+		e := builtinEnzymes[name]
+		for {
+			p := randDNA(rng, 5+rng.Intn(20)) + e.Site + randDNA(rng, e.Skip) + randDNA(rng, e.Ovh) + randDNA(rng, 8+rng.Intn(20)) +
+				randDNA(rng, e.Ovh) + randDNA(rng, e.Skip) + e.Rsite + randDNA(rng, 5+rng.Intn(20))
+			if countSites(p, e, true) != 2 {
+				continue
+			}
+			g++
+			for r := 0; r < len(p); r++ {
+				cut(e, name, p[r:]+p[:r], true)
+			}
+			break
+		}
+	}
 	for i := 0; i < nLayouts; i++ {
 		var e specEnzyme
 		name := ""
